@@ -59,6 +59,8 @@ op_strategy = st.one_of(
     st.just({"op": "roundtrip"}),
     st.just({"op": "dumps"}),
     st.sampled_from([{"op": "roundtrip", "as": "1.0"}, {"op": "roundtrip", "as": "1.1"}]),       # the content goes through an older format's reader
+    # an identity attribute of an image object that is already known to the manifest is re-bound (identity is what the object says NOW)
+    st.fixed_dictionaries({"op": st.just("retag"), "img": st.integers(0, 10), "attr": st.sampled_from(["subvariant", "disc_number", "arch"]), "value": st.integers(0, 2)}),
 )
 history_strategy = st.fixed_dictionaries({"pool": pool_strategy(), "version": st.sampled_from(["0.0", "1.0", "1.1", "1.2", "1.2", "1.1"]),
                                            "ops": st.lists(op_strategy, min_size=1, max_size=25)})
@@ -128,6 +130,19 @@ def history_case(case):
                 model.setdefault((op["variant"], op["arch"]), {})[key] = rec
                 if any(ident(r) == ident(rec) and r["checksums"] == rec["checksums"] for r in stored):
                     accepted_equal += 1
+        elif op["op"] == "retag":
+            idx = op["img"] % len(pool)
+            if idx in shared:
+                new_rec = dict(pool[idx])
+                new_rec[op["attr"]] = ALT[op["attr"]][op["value"] % len(ALT[op["attr"]])]
+                others = [r for cell, entries in model.items() for key, r in entries.items() if key != ("pool", idx)]
+                if not any(ident(r) == ident(new_rec) and r["checksums"] != new_rec["checksums"] for r in others):
+                    setattr(shared[idx], op["attr"], new_rec[op["attr"]])
+                    pool = list(pool)
+                    pool[idx] = new_rec
+                    for entries in model.values():
+                        if ("pool", idx) in entries:
+                            entries[("pool", idx)] = new_rec
         elif op["op"] == "dumps":
             # written, but the caller goes on with the same object (which is now at the current version)
             must("dumps", im.dumps)
@@ -240,6 +255,12 @@ def identify_case(rec):
     check(tuple(from_obj) == want, "identity-of-object", lambda: "identify_image(object) = %r, attributes say %r" % (tuple(from_obj), want))
     check(from_obj == from_dict == from_doc, "identity-object-vs-dict", lambda: "object %r, dict %r, json dict %r" % (from_obj, from_dict, from_doc))
     check(tuple(from_obj._fields) == tuple(imm.IDENTITY), "identity-fields", "%r" % (from_obj._fields,))
+    # identity is what the object says NOW: re-bind identity attributes of the object that was just identified and ask again
+    changed = dict(rec, subvariant=rec["subvariant"] + "x", disc_number=rec["disc_number"] + 1, arch="s390x" if rec["arch"] != "s390x" else "x86_64")
+    img.subvariant, img.disc_number, img.arch = changed["subvariant"], changed["disc_number"], changed["arch"]
+    again = must("identify-object-after-change", identify_image, img)
+    check(tuple(again) == ident(changed), "identity-of-changed-object", lambda: "after re-binding subvariant/disc_number/arch identify_image(object) = %r, attributes say %r" % (
+        tuple(again), ident(changed)))
     return {"nontrivial": rec["unified"] or bool(rec["subvariant"]), "labels": ["unified" if rec["unified"] else "plain"]}
 
 
